@@ -75,6 +75,7 @@ var c19Formats = []string{"csv", "tsv", "toml", "base64", "uri", "shell", "lua"}
 
 // c19Tree: a bounded tree for the encoders; returns the node and a shape code.
 //   0 scalar(str) 1 scalar(int) 2 [s,s] 3 [[s],[s]] 4 [{k:s},{k:s}] 5 [{k:[s]}] 6 {k:s} 7 [] 8 [[s],{k:s}] 9 [{k:s},[s]] 10 [s,[s]]
+//   11 [{[a]:s}] 12 [{k:{n:s}}] 13 [[s,[s]]] 14 [{k:s},{k:[s]}]
 func c19Tree(shape int) *yaml.Node {
 	s := func() *yaml.Node { return vStr("v") }
 	switch shape {
@@ -98,8 +99,16 @@ func c19Tree(shape int) *yaml.Node {
 		return vSeq(vSeq(s()), vMap(vStr("k"), s()))
 	case 9:
 		return vSeq(vMap(vStr("k"), s()), vSeq(s()))
-	default:
+	case 10:
 		return vSeq(s(), vSeq(s()))
+	case 11: // [{[a]: s}] — an object whose key is no scalar
+		return vSeq(vMap(vSeq(vStr("a")), s()))
+	case 12: // [{k: {n: s}}] — an object that is not flat
+		return vSeq(vMap(vStr("k"), vMap(vStr("n"), s())))
+	case 13: // [[s, [s]]] — a row with a nested array
+		return vSeq(vSeq(s(), vSeq(s())))
+	default: // [{k: s}, {k: [s]}] — the second object is not flat
+		return vSeq(vMap(vStr("k"), s()), vMap(vStr("k"), vSeq(s())))
 	}
 }
 
@@ -122,7 +131,7 @@ func c19Representable(format string, shape int) bool {
 func VerifC19Encoders() {
 	fi := verifChoice("format", len(c19Formats))
 	format := c19Formats[fi]
-	shape := verifChoice("shape", 11)
+	shape := verifChoice("shape", 15)
 	writerFails := verifConcreteBool(verifBool("writerFails"))
 	f, err := FormatFromString(format)
 	if err != nil {
